@@ -235,5 +235,6 @@ def ob_key_load(fns):
         ob.result, ob.reason = "inconclusive", "no Ok path reached (vacuous)"
         return ob
     ob.result = "pass"
+    ob.battery, ob.battery_features = ("key-load", 36), ["pem"]
     ob.bound_text = f"the seven algorithm labels of the ring build x arbitrary parser verdicts x the three key forms of PrivateKeyDer; {n_ok} Ok paths"
     return ob
